@@ -1761,7 +1761,13 @@ def gen_termlist(repo) -> Tuple[str, List[str]]:
         fn = TLFn(w, f, mon, rty, assumptions, lits, fuel=fuelled)
         if fuelled:
             w.static[name] = (tl_name(name), mon, params, rty, True)     # visible to itself
-        body = fn.translate(params)
+        try:
+            body = fn.translate(params)
+        except Unsupported as ex:
+            if not mon or fuelled:
+                raise
+            body = P.function_stub("TermListGen.v", f"{cls}.{name}", ex)
+            lits = []
         body = render_literals(body, lits)
         ps = ([] if (static or name == "__init__") else [("self", "TL")]) + [(tl_cid(n), t) for n, t, _ in params]
         sig = " ".join(f"({n} : {coq_type(t)})" for n, t in ps)
